@@ -295,20 +295,28 @@ Proof. exact (@inst_extends_old). Qed.
 Theorem C15_inst_reaches_old : forall auto s, reachable auto s -> exists S, ireachable auto S /\ db S = s.
 Proof. exact (@old_reachable_ireachable). Qed.
 
-(* The refresh statement the property implies: after sync() (sync = true) or expire() (false) on the instance of ANY
-   level l, reached through ANY entry class e, a read of EVERY attribute through ANY entry class e' shows the stored value. *)
-Definition C15_refresh_full : Prop := forall auto sync S id k e l e', ireachable auto S -> In (id, k) (born (db S)) ->
-  In e (chain k) -> In l (chain k) -> In e' (chain k) ->
-  snd (istep auto (fst (istep auto S (refresh_op sync e id l))) (Old (Get e' id))) = RObj (mkobj id k (stored (db S) k id)).
-(* False: neither sync() nor expire() of the child touches the ancestors' instances (witness: HC(1,1,1); UPDATE ha SET x = 5;
-   c.sync() or c.expire(); HC.get(1) reads x = 1) *)
-Theorem C15_refresh_refuted : forall sync, exists S,
+(* sync() / expire() (since /repo 47d20cb) act on the instance and on every instance above it in its `_parent` chain.
+   The refresh statement the property implies: after sync() (sync = true) or expire() (false) on the object that
+   e.get(id) hands out (the leaf of the chain), reached through ANY entry class e, a read of EVERY attribute, own or
+   inherited, through ANY entry class e' shows the stored value. *)
+Definition C15_refresh_full : Prop := forall auto sync S id k e e', ireachable auto S -> In (id, k) (born (db S)) ->
+  In e (chain k) -> In e' (chain k) ->
+  snd (istep auto (fst (istep auto S (refresh_op sync e id k))) (Old (Get e' id))) = RObj (mkobj id k (stored (db S) k id)).
+(* It holds whenever no OTHER instance of a level of the row sits in the identity map with an outdated value (`entries_fresh`) ... *)
+Theorem C15_refresh_partial : forall auto sync S id k e e', ireachable auto S -> In (id, k) (born (db S)) ->
+  In e (chain k) -> In e' (chain k) -> entries_fresh S k id ->
+  snd (istep auto (fst (istep auto S (refresh_op sync e id k))) (Old (Get e' id))) = RObj (mkobj id k (stored (db S) k id)).
+Proof. exact (@refresh_leaf). Qed.
+(* ... and is false without that guard (open finding expired_ancestor_instance_twin): expire() was called on the root's
+   instance (c._parent._parent) earlier, a get through the root put a twin of it into the identity map; expire() of an
+   instance that is expired already leaves the identity map alone, so after c.expire() the new leaf adopts the twin *)
+Theorem C15_refresh_refuted : exists S,
   ireachable true S /\ In (1, KC) (born (db S)) /\
-  snd (istep true (fst (istep true S (refresh_op sync KC 1 KC))) (Old (Get KC 1))) = RObj (mkobj 1 KC [Some 1; Some 1; Some 1]) /\
+  snd (istep true (fst (istep true S (refresh_op false KC 1 KC))) (Old (Get KC 1))) = RObj (mkobj 1 KC [Some 1; Some 1; Some 1]) /\
   stored (db S) KC 1 = [Some 5; Some 1; Some 1].
-Proof. exact (@refresh_child_refuted). Qed.
-(* What does hold, unconditionally: the tables are untouched and the attribute of the level the call was made on reads
-   the stored value afterwards, through every entry class *)
+Proof. exact (@refresh_unguarded_refuted). Qed.
+(* The call on the instance of ANY level l of the chain (c._parent ...): unconditionally the tables are untouched and the
+   attribute of level l reads the stored value afterwards, through every entry class ... *)
 Theorem C15_refresh_own_level_partial : forall auto sync S id k e l e', ireachable auto S -> In (id, k) (born (db S)) ->
   In e (chain k) -> In l (chain k) -> In e' (chain k) ->
   let S' := fst (istep auto S (refresh_op sync e id l)) in
@@ -316,40 +324,34 @@ Theorem C15_refresh_own_level_partial : forall auto sync S id k e l e', ireachab
   exists ob, snd (istep auto S' (Old (Get e' id))) = RObj ob /\ oid ob = id /\ ocls ob = k /\
              oat ob l = val_of (db S) l id.
 Proof. exact (@refresh_own_level). Qed.
-(* ... and the call on the instance of EVERY level (root first) refreshes everything, provided no other instance of a
-   level of the row sits in the identity map with an outdated value (`entries_fresh`) *)
-Theorem C15_refresh_every_level_partial : forall auto sync S id k e e', ireachable auto S -> In (id, k) (born (db S)) ->
-  In e (chain k) -> In e' (chain k) -> entries_fresh S k id ->
-  let S' := irun auto S (all_levels sync e id (chain k)) in
-  db S' = db S /\ snd (istep auto S' (Old (Get e' id))) = RObj (mkobj id k (stored (db S) k id)).
-Proof. exact (@refresh_every_level). Qed.
-(* without that guard false: expire() of an instance that is expired already leaves a twin in the identity map *)
-Theorem C15_refresh_every_level_refuted : exists S,
-  ireachable true S /\ In (1, KC) (born (db S)) /\
-  let S' := irun true S (all_levels false KC 1 (chain KC)) in
-  snd (istep true S' (Old (Get KC 1))) = RObj (mkobj 1 KC [Some 1; Some 1; Some 1]) /\
-  stored (db S) KC 1 = [Some 5; Some 1; Some 1].
-Proof. exact (@refresh_every_level_refuted). Qed.
-(* "inherited attributes read the ancestor's row" fails even without any write behind the ORM once expire() was called
-   on an ancestor's instance: a later leaf adopts the twin the identity map got meanwhile *)
-Theorem C15_inherited_read_refuted : exists ops,
-  forallb no_raw ops = true /\ iclean true iinit ops = true /\
-  let S := irun true iinit ops in
-  In (1, KC) (born (db S)) /\
-  snd (istep true S (Old (Get KC 1))) = RObj (mkobj 1 KC [Some 1; Some 1; Some 1]) /\
-  stored (db S) KC 1 = [Some 1; Some 17; Some 1].
-Proof. exact (@twin_refuted). Qed.
+(* ... under the guard so do the attributes of every level above l (what that instance inherits) ... *)
+Theorem C15_refresh_inherited_partial : forall auto sync S id k e l e', ireachable auto S -> In (id, k) (born (db S)) ->
+  In e (chain k) -> In l (chain k) -> In e' (chain k) -> entries_fresh S k id ->
+  let S' := fst (istep auto S (refresh_op sync e id l)) in
+  exists ob, snd (istep auto S' (Old (Get e' id))) = RObj ob /\ oid ob = id /\ ocls ob = k /\
+             forall a, In a (chain l) -> oat ob a = val_of (db S) a id.
+Proof. exact (@refresh_upto). Qed.
+(* ... and the levels below l are left alone (they are not attributes of that instance): sync()/expire() of c._parent *)
+Theorem C15_refresh_below_refuted : forall sync, exists S,
+  ireachable true S /\ In (1, KC) (born (db S)) /\ entries_fresh S KC 1 /\
+  snd (istep true (fst (istep true S (refresh_op sync KC 1 KB))) (Old (Get KC 1))) = RObj (mkobj 1 KC [Some 5; Some 6; Some 1]) /\
+  stored (db S) KC 1 = [Some 5; Some 6; Some 7].
+Proof. exact (@refresh_below_refuted). Qed.
 
-(* non-vacuity: a reachable state with all three rows changed behind the ORM meets every hypothesis; sync() on every level then shows them *)
+(* the witness of the finding fixed by 47d20cb (HC(1,1,1); UPDATE ha SET x = 5; c.sync() or c.expire(); HC.get(1)) now reads x = 5 *)
+Example C15_example_former_witness : forall sync,
+  snd (istep true (fst (istep true (irun true iinit w_skip) (refresh_op sync KC 1 KC))) (Old (Get KC 1))) = RObj (mkobj 1 KC [Some 5; Some 1; Some 1]).
+Proof. exact w_skip_now. Qed.
+(* non-vacuity: a reachable state with all three rows changed behind the ORM meets every hypothesis; sync() of the leaf then shows them *)
 Example C15_example_refresh_hyp : ireachable true (irun true iinit w_raw3) /\ In (1, KC) (born (db (irun true iinit w_raw3))) /\
   entries_fresh (irun true iinit w_raw3) KC 1.
 Proof. exact w_raw3_ok. Qed.
 Example C15_example_refresh :
   snd (istep true (irun true iinit w_raw3) (Old (Get KA 1))) = RObj (mkobj 1 KC [Some 1; Some 1; Some 1]) /\
-  snd (istep true (irun true (irun true iinit w_raw3) (all_levels true KC 1 (chain KC))) (Old (Get KA 1))) = RObj (mkobj 1 KC [Some 5; Some 6; Some 7]) /\
-  snd (istep true (fst (istep true (irun true iinit w_raw3) (Expire KA 1 KB))) (Old (Get KB 1))) = RObj (mkobj 1 KC [Some 1; Some 6; Some 1]).
+  snd (istep true (fst (istep true (irun true iinit w_raw3) (Sync KA 1 KC))) (Old (Get KA 1))) = RObj (mkobj 1 KC [Some 5; Some 6; Some 7]) /\
+  snd (istep true (fst (istep true (irun true iinit w_raw3) (Expire KB 1 KC))) (Old (Get KA 1))) = RObj (mkobj 1 KC [Some 5; Some 6; Some 7]) /\
+  snd (istep true (fst (istep true (irun true iinit w_raw3) (Expire KA 1 KB))) (Old (Get KB 1))) = RObj (mkobj 1 KC [Some 5; Some 6; Some 1]).
 Proof. vm_compute. repeat split. Qed.
-
 
 Print Assumptions C15_nesting_inv_partial.
 Print Assumptions C15_nesting_inv_refuted.
@@ -382,7 +384,7 @@ Print Assumptions C15_inst_nesting_inv_partial.
 Print Assumptions C15_inst_history_extends_old.
 Print Assumptions C15_inst_reaches_old.
 Print Assumptions C15_refresh_refuted.
+Print Assumptions C15_refresh_partial.
 Print Assumptions C15_refresh_own_level_partial.
-Print Assumptions C15_refresh_every_level_partial.
-Print Assumptions C15_refresh_every_level_refuted.
-Print Assumptions C15_inherited_read_refuted.
+Print Assumptions C15_refresh_inherited_partial.
+Print Assumptions C15_refresh_below_refuted.
